@@ -37,8 +37,8 @@ ASSUMPTIONS = ["haplotype records have fixed length (all ALTs as long as REF), a
 
 def plan(tier, seed):
     q = tier == "quick"
-    specs = [{"name": "fn%02d" % i, "kind": "fn", "shard": i, "files": 16 if q else 80, "timeout": 3600} for i in range(8)]
-    specs += [{"name": "pipe%02d" % i, "kind": "pipe", "shard": 20 + i, "datasets": 8 if q else 24, "timeout": 3600} for i in range(8)]
+    specs = [{"name": "fn%02d" % i, "kind": "fn", "shard": i, "files": 16 if q else 400, "timeout": 3600} for i in range(8)]
+    specs += [{"name": "pipe%02d" % i, "kind": "pipe", "shard": 20 + i, "datasets": 8 if q else 80, "timeout": 3600} for i in range(8)]
     return specs
 
 
